@@ -46,7 +46,7 @@ def run(ctx):
         if n >= 3 and r_ > 10:
             r_ = rng.choice([4.0, 6.0, 8.0])          # large r in high dimension only exhausts the budget
         lo, up, w, cs, hs = cone_problem(rng, n, True)
-        mode = rng.choice(["flat", "flat", "premise-by-M", "steep", "needle", "needle"]) if n <= 2 else rng.choice(["flat", "flat", "premise-by-M", "steep"])
+        mode = rng.choice(["flat", "premise-by-M", "steep", "needle", "needle", "needle"]) if n <= 2 else rng.choice(["flat", "flat", "premise-by-M", "steep"])
         if mode == "flat":
             Lmax = r_ / KN[n] * rng.uniform(0.3, 0.999)          # K_N L <= r: the bound holds unconditionally
         elif mode == "premise-by-M":
@@ -65,6 +65,17 @@ def run(ctx):
             L1 = Lmax * rng.uniform(0.02, 0.08)
             base = L1 * math.sqrt(sum((a - b) ** 2 for a, b in zip(c1, c2)))
             cs, hs, Ls = [c1, c2], [0.0, base - depth], [L1, Lmax]
+        if mode == "needle" and n == 1 and i % 3 == 0:
+            # a steep local trap: gentle valley with a steep tip, and a far narrow well holding the global minimum; the premise
+            # holds once the observed slopes reach L (r >= 2), eps is small, part of the search runs in one DoGlobalIteration batch
+            mode = "trap"
+            Lmax = rng.uniform(20, 60)
+            r_ = rng.uniform(2.2, 4.0)
+            eps = 1e-3
+            c1 = rng.uniform(0.05, 0.45)
+            c2 = c1 + rng.uniform(0.4, 0.5)
+            s_ = rng.uniform(1.0, 3.0)
+            cs, hs, Ls = [[c1], [c1], [c2]], [0.3, 0.0, -0.5], [s_, Lmax, Lmax]
         f = lambda y, cs=cs, hs=hs, Ls=Ls, lo=lo, w=w: min(h + L * math.sqrt(sum(((t - a) / wi - c) ** 2 for t, a, wi, c in zip(y, lo, w, cc)))   # noqa: E731
                                                          for h, L, cc in zip(hs, Ls, cs))
         m = rng.choice([10, 8, 12]) if n > 1 else 10
@@ -77,6 +88,13 @@ def run(ctx):
             eps = max(eps, rng.choice([0.2, 0.3, 0.25]))
         run_ = SolverRun(FnProblem(n, lo, up, f, "cones/" + mode), r=r_, eps=eps, limit=limit, m=m, tag="cones/" + mode, full_snap=False,
                          listener="none", lip=Lmax, fmin=min(hs))
+        if rng.random() < 0.35 or (mode == "needle" and i % 2 == 0) or mode == "trap":
+            # the same guarantee must hold when part of the search is made through DoGlobalIteration batches (one big batch, or several)
+            if rng.random() < 0.5:
+                run_.dgi(rng.choice([25, 40, 60]))
+            else:
+                for k in scen.compositions(rng, rng.choice([8, 20, 45])):
+                    run_.dgi(max(k, rng.choice([1, 6, 15, 30])))
         run_.solve()
         runs.append(run_)
         if len(samples) < 4:
